@@ -107,9 +107,12 @@ class SObj:
         a[attr] = v
         return v
 
-    def _set(self, attr, value):
+    def _set(self, attr, value, count=True):
         self._attrs[attr] = value
         self._written.add(attr)
+        if count and sym._CUR:
+            n = cur().notes
+            n['writes'] = n.get('writes', 0) + 1
 
     def _del(self, attr):
         self._attrs[attr] = ABSENT
@@ -472,6 +475,9 @@ class Interp:
         it = self.eval(s.iter, env)
         if spec is not None:
             return spec.run_for(self, s, env, it)
+        fa = getattr(it, '_sym_forall', None)
+        if fa is not None:
+            return self.forall_loop(s, env, it)
         seq = self.concrete_iter(it)
         for v in seq:
             self.assign(s.target, v, env)
@@ -481,6 +487,32 @@ class Interp:
                 return
             except _Continue:
                 continue
+        self.exec_block(s.orelse, env)
+
+    def forall_loop(self, s, env, it):
+        """Proof rule for `for x in <symbolic collection>: body` where the body carries no state between iterations:
+        the body is executed once for an ARBITRARY element; a raise in it is a raise of the loop (witness = that
+        element); normal completion leaves the facts learned about the arbitrary element on the path, so anything
+        proved afterwards holds for every element.  Heap writes and `break` inside the body are outside the rule."""
+        d = getattr(it, 'd', it)
+        if getattr(d, '_empty', False):
+            self.exec_block(s.orelse, env)
+            return
+        if not d.known_nonempty():
+            if not truth(d):   # may be empty: zero iterations
+                self.exec_block(s.orelse, env)
+                return
+        for elem in it._sym_forall():
+            w0 = cur().notes.get('writes', 0)
+            self.assign(s.target, elem, env)
+            try:
+                self.exec_block(s.body, env)
+            except _Break:
+                raise Unsupported('break inside a for-all loop')
+            except _Continue:
+                pass
+            if cur().notes.get('writes', 0) != w0:
+                raise Unsupported('for-all loop body writes the heap (loop-carried state needs an invariant)')
         self.exec_block(s.orelse, env)
 
     def concrete_iter(self, it):
@@ -788,7 +820,11 @@ class Interp:
         kwargs = {}
         for k in n.keywords:
             if k.arg is None:
-                kwargs.update(self.eval(k.value, env))
+                kv = self.eval(k.value, env)
+                if isinstance(kv, dict):
+                    kwargs.update(kv)
+                else:
+                    kwargs['__sdict__'] = kv
             else:
                 kwargs[k.arg] = self.eval(k.value, env)
         if self.on_call is not None:
@@ -804,9 +840,11 @@ class Interp:
             if isinstance(v, ast.Constant):
                 parts.append(v.value)
             elif isinstance(v, ast.FormattedValue):
-                if v.conversion != -1 or v.format_spec is not None:
-                    raise Unsupported('f-string conversion/format spec')
-                parts.append(self.eval(v.value, env))
+                val = self.eval(v.value, env)
+                if v.conversion != -1 or v.format_spec is not None or not isinstance(val, (str, values.SStr)):
+                    parts.append('<?>')  # opaque text (messages only): never compared by any contract
+                else:
+                    parts.append(val)
             else:
                 raise Unsupported('f-string part')
         return values.str_concat(parts)
@@ -837,7 +875,46 @@ class Interp:
         return set(self._comp(n, env, lambda e: self.eval(n.elt, e)))
 
     def e_DictComp(self, n, env):
+        if len(n.generators) == 1 and not n.generators[0].ifs:
+            it = self.eval(n.generators[0].iter, env)
+            if hasattr(it, '_sym_forall'):
+                return self.dictcomp_forall(n, env, it)
         return dict(self._comp(n, env, lambda e: (self.eval(n.key, e), self.eval(n.value, e))))
+
+    def dictcomp_forall(self, n, env, it):
+        """{key(k): val(k) for k in D} with key(k) == k: pointwise dict; exceptions by the for-all rule"""
+        import z3
+        from . import values
+        d = getattr(it, 'd', it)
+        if getattr(d, '_empty', False) or (not d.known_nonempty() and not truth(d)):
+            return values.SDict(cur().fresh_name('empty'), z3.K(z3.IntSort(), z3.BoolVal(False)), d.val)
+        tnames = [t.id for t in ast.walk(n.generators[0].target) if isinstance(t, ast.Name)]
+        for elem in it._sym_forall():   # interesting keys first (exceptions only), the fresh arbitrary key last
+            e2 = Env(env)
+            self.assign(n.generators[0].target, elem, e2)
+            kk = elem[0] if isinstance(elem, tuple) else elem
+            try:
+                k = self.eval(n.key, e2)
+                same = (isinstance(k, SInt) and isinstance(kk, SInt) and z3.is_true(z3.simplify(k.e == kk.e))) \
+                    or (not isinstance(k, SInt) and k == kk)
+                if not same:
+                    raise Unsupported('dict comprehension key is not the iteration key')
+                v = self.eval(n.value, e2)
+            finally:
+                # walrus targets inside the comprehension bind in the enclosing scope (PEP 572), also when it raises
+                for name, val in e2.vars.items():
+                    if name not in tnames:
+                        env.set(name, val)
+        x = z3.Int('x!comp')
+        vz = z3.substitute(values._valz(v), (kk.e, x))
+        return values.SDict(cur().fresh_name('comp'), d.dom, z3.Lambda([x], vz))
+
+    def e_Yield(self, n, env):
+        v = self.eval(n.value, env) if n.value else None
+        h = getattr(self, 'on_yield', None)
+        if h is None:
+            raise Unsupported('yield without a consumer model')
+        return h(v)
 
     def e_Starred(self, n, env):
         raise Unsupported('starred expression outside call/tuple')
@@ -916,13 +993,20 @@ def b_list(x=()):
     return list(f() if f else x)
 
 
+def _late():
+    from . import values
+    DEFAULT_GLOBALS['dict'] = values.dict_ctor
+
+
 DEFAULT_GLOBALS = {
     'len': b_len, 'max': sym.smax, 'min': sym.smin, 'abs': b_abs, 'isinstance': b_isinstance, 'bool': b_bool,
     'int': b_int, 'range': b_range, 'getattr': _GetAttr(), 'setattr': _SetAttr(), 'tuple': b_tuple, 'list': b_list,
-    'enumerate': enumerate, 'zip': zip, 'str': str, 'dict': dict, 'set': set, 'frozenset': frozenset,
+    'enumerate': enumerate, 'zip': zip, 'str': str, 'dict': None, 'set': set, 'frozenset': frozenset,
     'True': True, 'False': False, 'None': None, 'Ellipsis': ...,
     'IndexError': IndexError, 'ValueError': ValueError, 'KeyError': KeyError, 'RuntimeError': RuntimeError,
     'TypeError': TypeError, 'NotImplementedError': NotImplementedError, 'AttributeError': AttributeError,
     'Exception': Exception, 'BaseException': BaseException, 'SyntaxError': SyntaxError, 'AssertionError':
     AssertionError, 'LookupError': LookupError, 'StopIteration': StopIteration,
 }
+
+_late()
